@@ -455,6 +455,11 @@ class Planner:
             m = self.infos[mid]
             for t in m.texts[:2]:
                 probes.append({'op': 'parse', 'mod': mid, 'entry': 'parse', 'text': m.wire(t), 'pos': 0, 'full': True})
+            if m.own:
+                # ... and once through the entry point of one of its own rules or classes
+                it = m.own[wr.randrange(len(m.own))]
+                probes.append({'op': 'parse', 'mod': mid, 'entry': ('class:' if it['k'] == 'class' else 'rule:') + it['name'],
+                               'text': m.wire(entry_text(wr, m, it)), 'pos': 0, 'full': wr.random() < 0.5})
         expected = sum(op.get('_steps', 0) for ops in clients for op in ops) + 1
         if n_clients == 1 or 'preempt' not in kinds:
             pol = {'kind': 'sequential'} if (n_clients == 1 or sr.random() < 0.5) else {'kind': 'op-interleave'}
